@@ -26,6 +26,7 @@ pub struct World<K: KeyT, V: ValT> {
     /// rayon in use: the live-table counter is not reliable (worker threads allocate/free asynchronously)
     pub nolive: bool,
     pub probe_ctr: usize,
+    pub ext_ctr: usize,
     pub zl0: (i64, i64),
 }
 
@@ -197,6 +198,7 @@ impl<K: KeyT, V: ValT> World<K, V> {
             silent: false,
             nolive: cfg!(miri),
             probe_ctr: 0,
+            ext_ctr: 0,
             zl0: (0, 0),
         }
     }
